@@ -1050,6 +1050,9 @@ def inline_body(eng, mod, fdef, args, kwargs, st, node, closure_env=None):
     if not hasattr(eng.frame, 'inlined_shas'):
         eng.frame.inlined_shas = set()
     eng.frame.inlined_shas.add(mod.sha(fdef))       # the caller's obligations depend on this text too
+    if not hasattr(eng.frame, 'inlined_ast_shas'):
+        eng.frame.inlined_ast_shas = set()
+    eng.frame.inlined_ast_shas.add(mod.ast_sha(fdef))
     try:
         from . import stmts
         outs = stmts.exec_block(eng, fdef.body, st)
